@@ -277,6 +277,24 @@ def run(ctx):
                 asg = [e for e in evs2 if e.kind == 'assign' and S.show(e.lhs) == 'self.connection_timeout']
                 r.check('%s:timeout-from-options' % st.split('::')[-1], len(asg) == 1 and S.show(asg[0].term) == 'std::option::Option::take(options.connection_timeout)', ctx.site(st), built=[S.show(e.term) for e in asg])
 
+        # the timeout stays armed for the whole handshake: only start/start_tls install it and only the successful end of the handshake clears it
+        with_ = set()
+        for p_, fn_ in ctx.fns.items():
+            if 'hir' not in fn_ or fn_.get('cfg_test'):
+                continue
+            for nd in H.walk(fn_['hir']):
+                tgt = None
+                if nd.get('k') in ('Assign', 'AssignOp'):
+                    tgt = H.peel(nd['l'])
+                elif nd.get('k') == 'MethodCall' and (nd.get('recv_ty') or '').startswith('&mut'):
+                    tgt = H.peel(nd['recv'])
+                elif nd.get('k') == 'AddrOf' and nd.get('mut'):
+                    tgt = H.peel(nd['e'])
+                if tgt is not None and tgt.get('k') == 'Field' and tgt.get('name') == 'connection_timeout' and 'io_loop::IoLoop' in (tgt['e'].get('ty') or ''):
+                    with_.add(ctx.owner(p_))
+        want_w = set(x for x in ('io_loop::IoLoop::start', 'io_loop::IoLoop::start_tls', 'io_loop::IoLoop::run_amqp_handshake') if ctx.has_fn(x))
+        r.eq('timeout-writers', sorted(with_), sorted(want_w), ctx.site(fnp), why='clearing the timeout anywhere else lets a server that goes silent mid-handshake hang the caller forever')
+
     def scope(p):
         return p.startswith(('io_loop::handshake_state::', 'connection_options::', '<auth::', 'io_loop::IoLoop::run_amqp_handshake', 'io_loop::IoLoop::handle_handshake_event',
                              'io_loop::IoLoop::is_handshake_done', 'io_loop::IoLoop::wait_for_amqp_handshake', '<T as serialize::TryFromAmqpFrame>'))
